@@ -465,7 +465,7 @@ fn materialise(dir: &Path, spec: &DirSpec, order: &[usize], rename: bool, rng: &
 	Ok(listing)
 }
 
-fn through(spec: &DirSpec, scratch: &mut Scratch, rng: &mut Rng, r: &mut Report, orders: usize) -> anyhow::Result<()> {
+fn through(spec: &DirSpec, scratch: &mut Scratch, rng: &mut Rng, r: &mut Report, orders: usize, inst: bool) -> anyhow::Result<()> {
 	// distinct contents -> tokens; tables by quill
 	let mut contents: Vec<String> = vec![];
 	let tok = |contents: &mut Vec<String>, c: &String| -> u64 { match contents.iter().position(|x| x == c) { Some(i) => i as u64, None => { contents.push(c.clone()); (contents.len() - 1) as u64 } } };
@@ -501,6 +501,19 @@ fn through(spec: &DirSpec, scratch: &mut Scratch, rng: &mut Rng, r: &mut Report,
 		let mut strs: Vec<String> = vec![];
 		let mut sid = |x: &str| -> usize { match strs.iter().position(|y| y == x) { Some(i) => i, None => { strs.push(x.to_owned()); strs.len() - 1 } } };
 		let d = glist(listing.iter().map(|n| format!("({},{})", sid(n), toks[by_name(n)])));
+		// ---- the instantiated model (coq/C05/Instance.v) on the real contents, first listing of selected directories
+		if inst && k == 0 {
+			let total: usize = spec.files.iter().map(|f| f.content.chars().count() + f.name.chars().count()).sum();
+			if total <= 6000 {
+				let d = glist(listing.iter().map(|n| format!("({},{})", gstr(&cps_str(n)), gstr(&cps_str(&spec.files[by_name(n)].content)))));
+				let ans = obs.as_ref().map(|o| glist(o.applies.iter().map(|(q, a)| format!("({},{})", gstr(&cps_str(q)),
+					gres(a.as_ref().map(|m| { let mut ds = vec![]; g_mappings(&from_quill(m, &mut ds)) }))))));
+				r.case("instantiated", format!("CInst {} {}", d, gres(ans)));
+				r.count(&format!("instantiated:kind:{}", spec.kind));
+				r.count(if obs.is_some() { "instantiated:resolve:ok" } else { "instantiated:resolve:err" });
+				if let Some(o) = &obs { r.count_n("instantiated:answers", o.applies.iter().filter(|(_, a)| a.is_some()).count() as u64); }
+			} else { r.count("instantiated:skipped-too-large"); }
+		}
 		let view = obs.as_ref().map(|o| {
 			let rootmap = tables.intern(&o.rootmap);
 			let applies: Vec<(String, Option<u64>)> = o.applies.iter().map(|(q, a)| (q.clone(), a.as_ref().map(|m| tables.intern(m)))).collect();
@@ -648,23 +661,25 @@ pub fn run(ctx: &Ctx) -> anyhow::Result<Report> {
 	let mut rng = Rng::new(ctx.seed);
 	let mut scratch = Scratch::new(ctx.seed)?;
 	let repo = PathBuf::from(std::env::var("VERIF_REPO").unwrap_or_else(|_| "/repo".into()));
-	r.rule = "directories = rooted version graphs (chains, trees, DAGs with diamonds and shortcuts, confluent and non-confluent; plain and client~server names, tricky names) x edit histories on mapping sets (renames, additions, removals, comment edits at class/field/method/parameter level; edge files printed by the harness' own .tinydiff printer, root file written by quill) x file-creation orders (3-4 per directory: as generated, shuffled, shuffled with renames, and one on a second file system), plus the malformed shapes (no root, two roots, reachable/unreachable cycles, unreachable versions, unknown names, bad file names, unreadable contents) and lookup-name collisions. One correspondence case per distinct listing order actually observed through read_dir. Non-trivial = resolve succeeds with at least two nodes; distinct by (listing order, contents).".into();
+	r.rule = "directories = rooted version graphs (chains, trees, DAGs with diamonds and shortcuts, confluent and non-confluent; plain and client~server names, tricky names) x edit histories on mapping sets (renames, additions, removals, comment edits at class/field/method/parameter level; edge files printed by the harness' own .tinydiff printer, root file written by quill) x file-creation orders (3-4 per directory: as generated, shuffled, shuffled with renames, and one on a second file system), plus the malformed shapes (no root, two roots, reachable/unreachable cycles, unreachable versions, unknown names, bad file names, unreadable contents) and lookup-name collisions. One correspondence case per distinct listing order actually observed through read_dir. Non-trivial = resolve succeeds with at least two nodes; distinct by (listing order, contents). Stream `instantiated`: every 12th (quick) / 20th (thorough) directory and the repository's fixture additionally as a CInst case — the real file contents as code points, evaluated by the INSTANTIATED model (C03 read, C11 contract/extend, C04 .tinydiff read/apply composed exactly as resolve/apply_diffs do) and compared with resolve's Ok/Err and with apply_diffs of every lookup name up to map order.".into();
 	r.notes.push(format!("scratch directories: {:?} (removed at exit)", scratch.bases));
 	if let Some(path) = &ctx.replay {
 		// a replay file written by an earlier run: the files between the `--- "name"` markers
 		let spec = parse_replay(&std::fs::read_to_string(path)?);
 		r.notes.push(format!("replay of {:?}: {} files", path, spec.files.len()));
-		through(&spec, &mut scratch, &mut rng, &mut r, 4)?;
+		through(&spec, &mut scratch, &mut rng, &mut r, 4, true)?;
 		return Ok(r);
 	}
 	let fx = fixture(&repo)?;
-	through(&fx, &mut scratch, &mut rng, &mut r, 4)?;
+	through(&fx, &mut scratch, &mut rng, &mut r, 4, true)?;
 	let n = if ctx.thorough { 8000 } else { 1000 };
-	for _ in 0..n {
+	// every `every`-th directory additionally goes through the instantiated model (whole file contents in the case)
+	let every = if ctx.thorough { 20 } else { 12 };
+	for i in 0..n {
 		let store = scratch.fresh(0)?;
 		let spec = gen_dir(&mut rng, &mut r, &store);
 		std::fs::remove_dir_all(&store)?;
-		through(&spec, &mut scratch, &mut rng, &mut r, 4)?;
+		through(&spec, &mut scratch, &mut rng, &mut r, 4, i % every == 0)?;
 	}
 	Ok(r)
 }
